@@ -107,6 +107,117 @@ Section Sys.
   Definition sfetch_tags (ls : list slabel) : list tag :=
     flat_map (fun l => match l with SCall (LFetch _ c) => [c_tag c] | _ => [] end) ls.
 
+  (* ---- both ends calling AND serving over one connection, and each end's connection going DOWN ----
+     RpcChannel is symmetric: with services_ set on the client side too, either end may call the other.
+     Each end is a channel with its life cycle (C19_Model.cstep); [toa] / [tob] are the frames under way
+     to end A / end B (requests of the peer's calls and responses of the peer's services, in the order
+     they were written).  BDown w: end w's connection goes DOWN (each end notices at its own time; frames
+     still queued towards it are never read). *)
+  Inductive side := SA | SB.
+  Definition other (w : side) : side := match w with SA => SB | SB => SA end.
+
+  Record bsys := mkB { ea : chan; eb : chan; toa : list event; tob : list event }.
+
+  Definition bend (y : bsys) (w : side) : chan := match w with SA => ea y | SB => eb y end.
+  Definition binq (y : bsys) (w : side) : list event := match w with SA => toa y | SB => tob y end.
+
+  (* end w becomes c', [out] is written towards the other end, end w's own input queue becomes q *)
+  Definition bupd (y : bsys) (w : side) (c' : chan) (q : list event) (out : list event) : bsys :=
+    match w with
+    | SA => mkB c' (eb y) q (tob y ++ out)
+    | SB => mkB (ea y) c' (toa y ++ out) q
+    end.
+
+  Definition binit (ownA ownB : bool) (svcsA svcsB : option (list (name * list name))) : bsys :=
+    mkB (cinit ownA svcsA) (cinit ownB svcsB) [] [].
+
+  Inductive blabel :=
+  | BCall (w : side) (l : label)              (* a CallMethod micro-step of a thread at end w *)
+  | BDeliver (w : side)                       (* the oldest frame under way to end w reaches its onRpcMessage *)
+  | BDone (w : side) (k : tok) (m : bytes)    (* the service at end w completes callback k with reply m *)
+  | BDown (w : side).                         (* end w's connection goes DOWN *)
+
+  (* who acted, which label its channel took, what the step did *)
+  Record bstep_rec := mkBS { bs_side : side; bs_label : clabel; bs_events : list event }.
+
+  Definition bstep (y : bsys) (l : blabel) : option (bsys * bstep_rec) :=
+    match l with
+    | BCall w l0 =>
+        match l0 with
+        | LFetch _ _ | LRegister _ | LSend _ =>
+            match cstep (bend y w) (CL l0) with
+            | Some (c', ev) => Some (bupd y w c' (binq y w) (frames ev), mkBS w (CL l0) ev)
+            | None => None
+            end
+        | _ => None
+        end
+    | BDeliver w =>
+        match binq y w with
+        | e :: q =>
+            (* a REQUEST frame reaches onRpcMessage as a request, a RESPONSE frame as a response
+               (C19_frames_arrive: always so for frames a channel writes) *)
+            match e, arrives_as wire_of content_of e with
+            | ESendRequest _ _ _ _, Some (LRequest r) =>
+                match cstep (bend y w) (CL (LRequest r)) with
+                | Some (c', ev) => Some (bupd y w c' q (frames ev), mkBS w (CL (LRequest r)) ev)
+                | None => None
+                end
+            | ESendResponse _ _, Some (LResponse i b) =>
+                match cstep (bend y w) (CL (LResponse i b)) with
+                | Some (c', ev) => Some (bupd y w c' q (frames ev), mkBS w (CL (LResponse i b)) ev)
+                | None => None
+                end
+            | _, _ => None
+            end
+        | [] => None
+        end
+    | BDone w k m =>
+        match cstep (bend y w) (CL (LDone k m)) with
+        | Some (c', ev) => Some (bupd y w c' (binq y w) (frames ev), mkBS w (CL (LDone k m)) ev)
+        | None => None
+        end
+    | BDown w =>
+        match cstep (bend y w) CDown with
+        | Some (c', ev) => Some (bupd y w c' (binq y w) [], mkBS w CDown ev)
+        | None => None
+        end
+    end.
+
+  Definition btrace := list (blabel * bstep_rec).
+
+  Fixpoint bexec (y : bsys) (ls : list blabel) : option (bsys * btrace) :=
+    match ls with
+    | [] => Some (y, [])
+    | l :: r =>
+        match bstep y l with
+        | None => None
+        | Some (y', st) =>
+            match bexec y' r with
+            | None => None
+            | Some (y'', tr) => Some (y'', (l, st) :: tr)
+            end
+        end
+    end.
+
+  (* what end w did, in order *)
+  Definition bproj (w : side) (tr : btrace) : ctrace :=
+    flat_map (fun p => match bs_side (snd p), w with
+                       | SA, SA | SB, SB => [(bs_label (snd p), bs_events (snd p))]
+                       | _, _ => []
+                       end) tr.
+
+  Definition bfetch_tags (w : side) (ls : list blabel) : list tag :=
+    flat_map (fun l => match l with
+                       | BCall SA (LFetch _ c) => match w with SA => [c_tag c] | SB => [] end
+                       | BCall SB (LFetch _ c) => match w with SB => [c_tag c] | SA => [] end
+                       | _ => [] end) ls.
+
+  (* both connections up, nothing under way, nothing pending, every CallMethod returned -- at both ends *)
+  Definition bquiescent (y : bsys) : Prop :=
+    toa y = [] /\ tob y = [] /\
+    (forall w, up (bend y w) = true /\ pending (core (bend y w)) = [] /\
+               forall t, tget t (threads (core (bend y w))) = TIdle).
+
   (* nothing in flight, every CallMethod has returned, every request handed to a service has been answered *)
   Definition quiescent (y : sys) : Prop :=
     c2s y = [] /\ s2c y = [] /\ pending (sv y) = [] /\ forall t, tget t (threads (cl y)) = TIdle.
